@@ -9,7 +9,7 @@ from jugverif import core, dumpcheck as D
 from jugverif.storecheck import vcanon
 
 LEVEL = 'proof'
-THEOREMS = ['Jug.C05.old_or_new', 'Jug.C05.visible_implies_complete', 'Jug.C05.residue_is_temp_only', 'Jug.C05.invisible_before_rename', 'Jug.C05.dump_sequences_safe', 'Jug.C05.packed_overwrite_order', 'Jug.C05.after_rename', 'Jug.C05.redis_dump_is_one_set']
+THEOREMS = ['Jug.C05.failed_write_visible_implies_complete', 'Jug.C05.gave_up_publishes_nothing', 'Jug.C05.failing_writes_safe', 'Jug.C05.old_or_new', 'Jug.C05.visible_implies_complete', 'Jug.C05.residue_is_temp_only', 'Jug.C05.invisible_before_rename', 'Jug.C05.dump_sequences_safe', 'Jug.C05.packed_overwrite_order', 'Jug.C05.after_rename', 'Jug.C05.redis_dump_is_one_set']
 
 
 def extract():
